@@ -511,3 +511,13 @@ package regclient
 //@   requires link-recorded-under-its-own-name: src == $fpToSlash($fpClean(caller.header.Name))
 //@   requires symlink-target-relative-to-the-links-directory: caller.header.Typeflag == tar.TypeSymlink && !$fpIsAbs(caller.header.Linkname) ==> tgt == $fpToSlash($fpClean("/" + $fpJoin2($fpDir(src), caller.header.Linkname))[1:])
 //@   requires other-targets-relative-to-the-archive-root: caller.header.Typeflag != tar.TypeSymlink || $fpIsAbs(caller.header.Linkname) ==> tgt == $fpToSlash($fpClean("/" + caller.header.Linkname)[1:])
+
+// ---- C09: entries in any order - oci-layout and index.json ----
+// The OCI import starts when BOTH oci-layout and index.json have been read, whichever comes
+// second in the archive; the two handlers cooperate through the captured flags foundLayout /
+// foundIndex. The index handler records that index.json was seen in the flag the oci-layout
+// handler tests (when oci-layout comes later in the archive it is that handler which starts the
+// import).
+//@ func (*RegClient).imageImportOCIAddHandler$3(header, trd) (err)
+//@   prop C09
+//@   ensures index-seen-recorded: err == nil ==> foundIndex
